@@ -19,7 +19,7 @@ import (
 
 var benignFaults = []string{"resegment", "dribble", "random-cuts", "latency", "jitter", "short-read", "finite-window", "starved-node", "deadline-retry", "preempt"}
 var benignReach = []string{"A1-proto-mismatch", "A2-version", "A3-no-suite", "A4-ecdhe-gm", "A5-missing-certs", "A6-server-verify", "A7-client-auth", "A8-callback-error", "A9-complete",
-	"gm-cbc", "gm-gcm", "tls10", "tls11", "tls12", "client-cert-sent", "callbacks-cert", "getconfigforclient", "payload>=16k", "payload-0", "stdlib-client", "stdlib-server", "wire-decoded", "timeout-retried", "auto-gm", "auto-tls"}
+	"gm-cbc", "gm-gcm", "tls10", "tls11", "tls12", "client-cert-sent", "callbacks-cert", "getconfigforclient", "payload>=16k", "payload-0", "stdlib-client", "stdlib-server", "wire-decoded", "vhost-second-name", "timeout-retried", "auto-gm", "auto-tls"}
 
 func init() {
 	register(Family{Name: "tls-benign", Prop: "C06", ID: 601, Weight: 1, FaultNames: benignFaults, ReachNames: benignReach, Run: runTLSBenign})
@@ -87,6 +87,7 @@ type benignParams struct {
 	CVerify      int  // 0 correct 1 wrong server name 2 wrong roots 3 InsecureSkipVerify
 	SrvChain     int  // GM: 0 direct leaf, 1 via intermediate
 	SrvMissing   bool // GMSSL server configured with the signing certificate only
+	VHost        bool // the server holds two identities; the client asks for the second name (server2.sim)
 }
 
 func drawSuiteList(c *simkit.Choice, pool []uint16) []uint16 {
@@ -173,6 +174,13 @@ func drawBenignParams(c *simkit.Choice) benignParams {
 	if p.CGM && p.SMode != modeTLS && c.Bool(1, 30, simkit.LScen) {
 		p.SrvMissing = true
 		p.SrvCertSrc = 0
+	}
+	if p.Peer == peerGmtls && !p.SrvMissing && p.CVerify == 0 && p.CallbackErr == 0 && c.Bool(1, 5, simkit.LScen) {
+		p.VHost = true
+		p.SrvKey = 0 // the second TLS identity has an RSA key
+		if p.SrvCertSrc == 0 && (p.CGM || p.SMode == modeAuto) {
+			p.SrvCertSrc = 1 // GMSSL / auto-switch select by name through the callbacks
+		}
 	}
 	// SrvChain (certificates under an intermediate CA) is outside C06's quantifier;
 	// see DESIGN.md "things deliberately not done". Always 0.
@@ -354,8 +362,8 @@ func (p *benignParams) model() (verdict int, rule string, vers uint16, suite uin
 }
 
 func (p *benignParams) String() string {
-	return fmt.Sprintf("smode=%d cgm=%v peer=%d csuites=%x ssuites=%x prefsrv=%v cver=[%x,%x] sver=[%x,%x] auth=%d ccert=%d cas=%v ssrc=%d csrc=%d tick=%v dyn=%v skey=%d cberr=%d cverify=%d chain=%d missing=%v",
-		p.SMode, p.CGM, p.Peer, p.CSuites, p.SSuites, p.PreferServer, p.CMin, p.CMax, p.SMin, p.SMax, p.ClientAuth, p.ClientCert, p.SrvClientCAs, p.SrvCertSrc, p.CliCertSrc, p.Tickets, p.DynOff, p.SrvKey, p.CallbackErr, p.CVerify, p.SrvChain, p.SrvMissing)
+	return fmt.Sprintf("smode=%d cgm=%v peer=%d csuites=%x ssuites=%x prefsrv=%v cver=[%x,%x] sver=[%x,%x] auth=%d ccert=%d cas=%v ssrc=%d csrc=%d tick=%v dyn=%v skey=%d cberr=%d cverify=%d chain=%d missing=%v vhost=%v",
+		p.SMode, p.CGM, p.Peer, p.CSuites, p.SSuites, p.PreferServer, p.CMin, p.CMax, p.SMin, p.SMax, p.ClientAuth, p.ClientCert, p.SrvClientCAs, p.SrvCertSrc, p.CliCertSrc, p.Tickets, p.DynOff, p.SrvKey, p.CallbackErr, p.CVerify, p.SrvChain, p.SrvMissing, p.VHost)
 }
 
 // serverConfig builds the gmtls server configuration.
@@ -374,6 +382,7 @@ func (p *benignParams) serverConfig(s *simkit.Sim, ent *simkit.Stream, res *endR
 	} else {
 		std = pki.GMStd("tlsrsa")
 	}
+	sign2, enc2, std2 := pki.GM("srv2-sign"), pki.GM("srv2-enc"), pki.GMStd("tlsrsa2")
 	fill := func(c *gmtls.Config) {
 		switch p.SMode {
 		case modeGM:
@@ -406,6 +415,10 @@ func (p *benignParams) serverConfig(s *simkit.Sim, ent *simkit.Stream, res *endR
 			c.Certificates = []gmtls.Certificate{sign, enc, std}
 		case modeTLS:
 			c.Certificates = []gmtls.Certificate{std}
+			if p.VHost {
+				c.Certificates = []gmtls.Certificate{std, std2}
+				c.BuildNameToCertificate()
+			}
 		}
 	}
 	callbacks := func(c *gmtls.Config) {
@@ -413,16 +426,28 @@ func (p *benignParams) serverConfig(s *simkit.Sim, ent *simkit.Stream, res *endR
 			if p.CallbackErr == 1 {
 				return nil, errCallback
 			}
+			res.SeenSNI = append(res.SeenSNI, h.ServerName)
+			second := p.VHost && h.ServerName == "server2.sim"
 			for _, v := range h.SupportedVersions {
 				if v == gmtls.VersionGMSSL {
+					if second {
+						return &sign2, nil
+					}
 					return &sign, nil
 				}
+			}
+			if second {
+				return &std2, nil
 			}
 			return &std, nil
 		}
 		c.GetKECertificate = func(h *gmtls.ClientHelloInfo) (*gmtls.Certificate, error) {
 			if p.CallbackErr == 1 {
 				return nil, errCallback
+			}
+			res.SeenSNI = append(res.SeenSNI, h.ServerName)
+			if p.VHost && h.ServerName == "server2.sim" {
+				return &enc2, nil
 			}
 			return &enc, nil
 		}
@@ -457,7 +482,7 @@ func (p *benignParams) serverConfig(s *simkit.Sim, ent *simkit.Stream, res *endR
 	case 2:
 		inner := &gmtls.Config{Rand: ent, Time: simTime(s, 0), KeyLogWriter: &res.KeyLog}
 		fill(inner)
-		if p.SMode == modeAuto {
+		if p.SMode == modeAuto || (p.VHost && p.SMode == modeGM) {
 			callbacks(inner)
 		} else {
 			certs(inner)
@@ -467,6 +492,7 @@ func (p *benignParams) serverConfig(s *simkit.Sim, ent *simkit.Stream, res *endR
 			if p.CallbackErr == 1 {
 				return nil, errCallback
 			}
+			res.SeenSNI = append(res.SeenSNI, h.ServerName)
 			return inner, nil
 		}
 		if p.SMode == modeAuto {
@@ -489,6 +515,9 @@ func (p *benignParams) clientConfig(s *simkit.Sim, ent *simkit.Stream, res *endR
 		cfg.RootCAs = pki.Pool("caA")
 	} else {
 		cfg.RootCAs = pki.Pool("rsaCA")
+	}
+	if p.VHost {
+		cfg.ServerName = "server2.sim"
 	}
 	switch p.CVerify {
 	case 1:
@@ -820,6 +849,9 @@ func runTLSBenign(c *simkit.Choice, r *simkit.Rec) {
 		if p.SrvChain == 1 {
 			signN, encN = "srvint-sign", "srvint-enc"
 		}
+		if p.VHost {
+			signN, encN = "srv2-sign", "srv2-enc"
+		}
 		if len(cv.peer) < 2 || !bytes.Equal(cv.peer[0], pki.DER(signN)) || !bytes.Equal(cv.peer[1], pki.DER(encN)) {
 			r.Violate("peer-certs", site, fmt.Sprintf("client's PeerCertificates (%d) are not the server's signing and encryption certificates", len(cv.peer)))
 			return
@@ -828,6 +860,9 @@ func runTLSBenign(c *simkit.Choice, r *simkit.Rec) {
 		want := "tlsrsa"
 		if p.SrvKey == 1 {
 			want = "tlsp256"
+		}
+		if p.VHost {
+			want = "tlsrsa2"
 		}
 		if len(cv.peer) < 1 || !bytes.Equal(cv.peer[0], pki.DER(want)) {
 			r.Violate("peer-certs", site, "client's PeerCertificates[0] is not the server's certificate")
@@ -848,6 +883,19 @@ func runTLSBenign(c *simkit.Choice, r *simkit.Rec) {
 				return
 			}
 		}
+	}
+	for _, n := range sr.SeenSNI {
+		want := "server.sim"
+		if p.VHost {
+			want = "server2.sim"
+		}
+		if n != want && p.Peer != peerStdServer {
+			r.Violate("callback-sni", site, fmt.Sprintf("a certificate/config callback saw ServerName %q, the client sent %q [%s]", n, want, p.String()))
+			return
+		}
+	}
+	if p.VHost {
+		r.Reach(idx(benignReach, "vhost-second-name"))
 	}
 	// ---- data
 	if cv.werr != nil || sv.werr != nil {
